@@ -57,6 +57,9 @@ func main() {
 		rep = suiteChunk("C03", "", *tier, *seed, *model)
 		rep.Merge(suiteSenAgree(*tier, *seed))
 		rep.Merge(suiteChannel(*tier, *seed))
+		rep.Merge(suiteTokenBuilder(*tier, *seed))
+	case "C03b":
+		rep = suiteTokenBuilder(*tier, *seed)
 	case "C03s":
 		rep = suiteSenAgree(*tier, *seed)
 		rep.Merge(suiteChannel(*tier, *seed))
